@@ -28,9 +28,18 @@
    ring buffer.  The consumer reads fields only: TwrMsgProofs.tm_padding_irrelevant (Properties_C06_msg.
    C06_msg_padding_irrelevant) proves the decoded call is the same for ANY padding bytes.  Consequence for testing:
    the hash of the real message bytes (harness/twr_sched.c `h` tokens) is not predictable for fsr / utc / annotation.
-   Truncations that the C performs are performed here: the enum arguments storage_type / annotation_type are stored
-   in uint8 fields (mod 256, AFTER the STRING/JSON test on the full value); the FSR payload length is computed in
-   uint64 and cast to uint32 (mod 2^32); sizeof(hdr) + payload_size is computed in uint32 in msg_send_inner.
+   Rejections before queueing (the repair of K-C06-fsr-len-trunc / K-C06-enum-trunc), exactly where the C has them:
+     jls_twr_user_data : first thing, (uint32_t) storage_type > UINT8_MAX -> JLS_ERROR_PARAMETER_INVALID;
+     jls_twr_annotation: first thing, (uint32_t) storage_type > UINT8_MAX or (uint32_t) annotation_type > UINT8_MAX
+                         -> JLS_ERROR_PARAMETER_INVALID;
+     jls_twr_fsr       : after the signal-id range test and the NOT_FOUND test on the table entry,
+                         length64 = ((uint64_t) data_length * bits + 7) / 8 > UINT32_MAX - sizeof(struct msg_header_s)
+                         -> JLS_ERROR_PARAMETER_INVALID.
+   The enum arguments stype / atype of the model are the (uint32_t) values of the C arguments.  The casts that the C
+   still performs are performed here: the enum arguments are stored in uint8 fields (tw_le 1: mod 256, the identity
+   after the range test); the FSR payload length is cast to uint32 (mod 2^32, the identity after the range test; the
+   uint64 product does not wrap: data_length < 2^32, table entries are uint8); sizeof(hdr) + payload_size is computed
+   in uint32 in msg_send_inner.
    Faults are explicit (TwmFault): a read beyond the caller's buffer (including strlen without a NUL and a NULL pointer
    with a non-zero length) and the wrapped uint32 message size (allocation of the wrapped size, copy of the full one). *)
 From Coq Require Import NArith ZArith List Bool.
@@ -125,6 +134,8 @@ Definition tm_fsr_len (bits count : N) : N := ((count * bits + 7) / 8) mod 42949
 Definition tm_encode (tbl : N -> N) (c : tm_call) : twm_res :=
   match c with
   | TmUser meta stype data data_size =>
+    if 255 <? stype then TmRej JLS_ERROR_PARAMETER_INVALID           (* (uint32_t) storage_type > UINT8_MAX *)
+    else
     match tm_data_payload stype data data_size with
     | TmPlRej rc => TmRej rc | TmPlFault => TwmFault
     | TmPlOk p => tm_send (tm_hdr_user meta stype) p
@@ -132,6 +143,7 @@ Definition tm_encode (tbl : N -> N) (c : tm_call) : twm_res :=
   | TmFsr sig sid data count =>
     if JLS_SIGNAL_COUNT <=? sig then TmRej JLS_ERROR_PARAMETER_INVALID
     else if tbl sig =? 0 then TmRej JLS_ERROR_NOT_FOUND
+    else if 4294967295 - TM_HDR <? (count * tbl sig + 7) / 8 then TmRej JLS_ERROR_PARAMETER_INVALID   (* length64 > UINT32_MAX - sizeof(hdr) *)
     else
       let n := tm_fsr_len (tbl sig) count in
       match data with
@@ -140,6 +152,8 @@ Definition tm_encode (tbl : N -> N) (c : tm_call) : twm_res :=
       end
   | TmOmit sig en => tm_send (tm_hdr_omit sig en) []
   | TmAnn sig ts y atype group stype data data_size =>
+    if (255 <? stype) || (255 <? atype) then TmRej JLS_ERROR_PARAMETER_INVALID   (* either enum > UINT8_MAX *)
+    else
     match tm_data_payload stype data data_size with
     | TmPlRej rc => TmRej rc | TmPlFault => TwmFault
     | TmPlOk p => tm_send (tm_hdr_ann sig ts y atype group stype) p
@@ -200,17 +214,17 @@ Definition tm_psize (tbl : N -> N) (c : tm_call) : N :=
   | _ => 0
   end.
 
-(* the arguments are values of their C types; the enum arguments are below 256 (a real restriction: see
-   tm_enum_call); the caller's buffer is shorter than 4 GiB (strlen + 1 fits uint32) and the FSR payload length
-   fits uint32 (a real restriction: see tm_trunc_call) *)
+(* the arguments are values of their C types (the enum arguments: any uint32 value, no hypothesis); the caller's
+   buffer is shorter than 4 GiB (strlen + 1 fits uint32).  Nothing about the enum range or the FSR payload length:
+   calls outside are rejected by tm_encode (tm_enum_call, tm_trunc_call) *)
 Definition tm_i64_ok (z : Z) : Prop := (-9223372036854775808 <= z < 9223372036854775808)%Z.
 Definition tm_call_ok (tbl : N -> N) (c : tm_call) : Prop :=
   match c with
-  | TmUser meta stype data data_size => meta < 65536 /\ stype < 256 /\ data_size < 4294967296 /\ len (tm_bytes data) < 4294967296
-  | TmFsr sig sid _ count => sig < 65536 /\ tm_i64_ok sid /\ count < 4294967296 /\ (count * tbl sig + 7) / 8 < 4294967296
+  | TmUser meta stype data data_size => meta < 65536 /\ data_size < 4294967296 /\ len (tm_bytes data) < 4294967296
+  | TmFsr sig sid _ count => sig < 65536 /\ tm_i64_ok sid /\ count < 4294967296
   | TmOmit sig en => sig < 65536 /\ en < 4294967296
   | TmAnn sig ts y atype group stype data data_size =>
-    sig < 65536 /\ tm_i64_ok ts /\ y < 4294967296 /\ atype < 256 /\ group < 256 /\ stype < 256 /\ data_size < 4294967296 /\
+    sig < 65536 /\ tm_i64_ok ts /\ y < 4294967296 /\ group < 256 /\ data_size < 4294967296 /\
     len (tm_bytes data) < 4294967296
   | TmUtc sig sid utc => sig < 65536 /\ tm_i64_ok sid /\ tm_i64_ok utc
   | TmFlush id => id < 18446744073709551616
@@ -327,12 +341,12 @@ Definition tm_origin (cs : list tm_pcall) (m : msg) (w : tm_wcall) : Prop :=
   (In TmPClose cs /\ tm_encode (fun _ => 0) TmClose = TmMsg m /\ w = TmWQuit).
 
 (* ---- witnesses ---- *)
-(* (1) uint32 truncation of the FSR payload length: 2^29 samples of 64 bits: length 2^32 -> 0.  The message is
-       accepted with sample_count = 2^29 and no payload. *)
+(* (1) FSR payload length: 2^29 samples of 64 bits = 2^32 bytes.  Before the repair the length was cast to uint32 (0)
+       and a 40-byte message with sample_count = 2^29 was queued; now the call is rejected (PARAMETER_INVALID). *)
 Definition tm_trunc_tbl (sig : N) : N := if sig =? 1 then 64 else 0.
 Definition tm_trunc_call : tm_call := TmFsr 1 0 (TmBuf []) 536870912.
-(* (2) enum truncation: storage_type 258 is not STRING for jls_twr_annotation (payload: data_size bytes, no NUL needed)
-       but is stored as (uint8_t) 258 = 2 = STRING: jls_wr_annotation calls strlen on a payload without NUL *)
+(* (2) enum range: storage_type 258 is not STRING for jls_twr_annotation (payload: data_size bytes, no NUL needed) but
+       would be stored as (uint8_t) 258 = 2 = STRING.  Before the repair it was queued; now rejected (PARAMETER_INVALID). *)
 Definition tm_enum_call : tm_call := TmAnn 1 0 0 1 0 258 (TmBuf [97; 98]) 2.
 
 (* ---- examples ---- *)
